@@ -684,6 +684,8 @@ func opqOf(cls, id int) any {
 		} else {
 			v = MyStr("named")
 		}
+	case 31: // a slice of strings (a multi-valued expression, as a caller might hold one): the slice stays the caller's
+		v = []string{"a", "b c", fmt.Sprint("v", id)}
 	default:
 		v = &Opq{Cls: cls, ID: id}
 	}
